@@ -309,7 +309,7 @@ fn general_case(src: &mut Src, ctx: &mut Ctx) -> Result<(), String> {
         let angle = match src.weighted(&[3, 2, 2]) {
             0 => 0.25 * src.below(1440) as f64,
             1 => src.below(18_000_000) as f64 / 10_000.0 - 720.0, // [-720, 1080): angles are not confined to one turn
-            _ => *src.pick(&[0.0, 90.0, 180.0, 270.0, 360.0, -90.0, 45.0, 30.0, 450.0, -180.0, 540.0, -135.0, 480.0, 720.0, -360.0, -270.0, 630.0, 225.0]),
+            _ => *src.pick(&[0.0, 90.0, 180.0, 270.0, 360.0, -90.0, 45.0, 30.0, 450.0, -180.0, 540.0, -135.0, 480.0, 720.0, -360.0, -270.0, 630.0, 225.0, -0.0, -1e-14, -1e-15, 1e-14, -1e-100, -f64::MIN_POSITIVE, f64::MIN_POSITIVE, 90.0 - 90.00000000000001, 89.99999999999999, 360.00000000000006, 10.0, 80.0, 100.0, 170.0]),
         };
         let refl = src.bool();
         let loc = (src.signed(100_000), src.signed(100_000));
@@ -370,7 +370,7 @@ fn general_flatten_case(src: &mut Src, ctx: &mut Ctx) -> Result<(), String> {
         let angle = match src.weighted(&[3, 1, 1]) {
             0 => 0.25 * src.below(1440) as f64,
             1 => src.below(18_000_000) as f64 / 10_000.0 - 720.0, // [-720, 1080): angles are not confined to one turn
-            _ => *src.pick(&[30.0, 45.0, 60.0, 135.0, 33.3, 90.0, 270.0, -30.0, -90.0, -270.0, -45.0, 405.0, -0.25]),
+            _ => *src.pick(&[30.0, 45.0, 60.0, 135.0, 33.3, 90.0, 270.0, -30.0, -90.0, -270.0, -45.0, 405.0, -0.25, -0.0, -1e-14, -1e-15, -1e-100, -f64::MIN_POSITIVE, 90.0 - 90.00000000000001, 10.0, 80.0, 100.0, 170.0]),
         };
         let refl = src.bool();
         let loc = (src.signed(50_000), src.signed(50_000));
